@@ -33,6 +33,8 @@ whether independent checking machinery notices them. You do not see that machine
   `cd {wt} && go test -vet=off -count=1 -p 4 -timeout 40m ./...` (takes 5-15 minutes). The test
   `TestSimple_MomentumInsertionBenchmark` is a wall-clock benchmark that can fail on a busy machine; ignore a failure
   of that test only (and `TestPack_SimpleTest` is randomized and very rarely fails on its own). Every other test must pass.
+* Never use `git stash` (the stash is shared by all worktrees of the repository and other authors work in parallel):
+  to set a change aside use `git diff > /tmp/seed-{pid}/K/wip.diff; git checkout -- .` and later `git apply`.
 * If `go.mod`/`go.sum` get rewritten by `-mod=mod`, restore them (`git checkout -- go.mod go.sum`); they are not
   part of your change.
 
